@@ -105,7 +105,7 @@ PROPS["C17"] = P(["codec", "driver", "driver_run", "dispatch"],
     assumptions=["tokio-util FramedRead appends the bytes read and calls decode until it returns None", "std slice iteration semantics (env model)"],
     not_covered=["JsonCodec / JsonRpcCodec (serde_json text <-> value)", "dispatch_one outside its three slices -- reply path, and the two tails that start the handler tasks (no suspension point after the message was read; each handler started exactly once as a task of its own) -- i.e. the lookup of method / params / callback (src/cln_plugin/mod.rs), and the cancellation of partially executed select! branch futures: PluginDriver::run is verified with every branch future as one atomic, cancellation-safe call (E3 refuses anything else: exit 2), dispatch_one being ASSUMED cancellation safe", "logging writer"])
 
-PROPS["C19"] = P(["config", "provider", "initopts"],
+PROPS["C19"] = P(["config", "provider", "initopts", "optread"],
     "Proof (Verus) on two E6 slices of main() (src/main.rs): (a) from the first cp.option(..) to the construction of the payment provider, (b) the statement that builds HtlcManager::new(HtlcManagerParams{..}): it refuses to start iff a value is out of its target range or policy delta <= safety delta; (c) the statement of Builder::handle_init (src/cln_plugin/mod.rs) that turns the `init` message's JSON value into the option's value: the configured string/integer/bool exactly, the declared default when absent, no normal return for any other JSON type; otherwise safety delta, advertised/enforced policy, MPP timeout, self-route-hint flag, payment timeout and xpay equal the configured values (options are distinct opaque tokens, so a swapped option is a failed obligation). PayPaymentProvider::new caps the retry time at 65535 s.",
     "Trusted: " + TB_COMMON + " env/config_env.rs (ConfiguredPlugin::option returns the value CLN delivered: uninterpreted cfg_*; E11: option descriptors become opaque distinct tokens, name/default/description dropped). HtlcManager::new is verified to store the parameters as given; PayPaymentProvider::new enters under its contract (proved in unit provider). The statements of main() between the two slices (block watcher start, store, e-mail service) are not under contract; that the locals flowing from slice (a) into slice (b) are the same is plain data flow of main() (no reassignment), checked by rustc's immutability (the locals are not `mut`).",
     assumptions=["ConfiguredPlugin::option hands main() the value that handle_init stored for that option (the HashMap between the two is not under contract)"],
